@@ -22,3 +22,27 @@ Proof. exact token_idempotent. Qed.
    measures the text that is finally emitted *)
 Theorem C03_rewriters_before_wrapper : rewriters_before_wrapper pipeline = true.
 Proof. exact generated_rewriters_before_wrapper. Qed.
+
+From PasfmtVerif Require Import Model.FmtData Proofs.FmtDataProofs.
+
+(* reading back the whitespace the reconstructor emitted: same line-break count, spaces = total width of indentation, continuation and spaces *)
+Theorem C03_emitted_ws_reads_back :
+  forall (crlf tabs : bool) (iw cw : N) (mb : bool) (tok : token) (f : fmt) (ign : bool),
+  f_ignored f = false ->
+  fmt_of_ws (Reconstruct.emit_ws (rs_new crlf tabs iw cw) mb (tok, f)) ign =
+  {|
+    f_ignored := ign;
+    f_nl := u16_sat (emitted_nls mb tok f);
+    f_ind := 0;
+    f_cont := 0;
+    f_sp := u16_sat (f_ind f * iw + f_cont f * cw + f_sp f)
+  |}.
+Proof. exact fmt_of_emit_ws. Qed.
+
+(* the line-break count of emitted whitespace is reproduced exactly *)
+Theorem C03_emitted_nl_exact :
+  forall (crlf tabs : bool) (iw cw : N) (tok : token) (f : fmt) (ign : bool),
+  f_ignored f = false ->
+  f_nl f <= 65535 ->
+  f_nl (fmt_of_ws (Reconstruct.emit_ws (rs_new crlf tabs iw cw) false (tok, f)) ign) = f_nl f.
+Proof. exact fmt_of_emit_ws_nl. Qed.
